@@ -36,7 +36,7 @@ HonestDele == [pubk |-> "OLK", win |-> "covers"]
 \*   root "this"  = root of a batch containing THIS request's leaf
 \*   root "old"   = root of a batch containing an EARLIER request's leaf (genuinely signed once)
 \*   root "junk"  = a root no honest batch ever had
-Sreps == {[midp |-> m, root |-> r, ver |-> v] : m \in {"now", "other"}, r \in {"this", "old", "otherproto", "junk"}, v \in Versions}
+Sreps == {[midp |-> m, root |-> r, ver |-> v] : m \in {"now", "other"}, r \in {"this", "old", "otherproto", "junk", "short"}, v \in Versions}
 HonestSrep(v) == [midp |-> "now", root |-> "this", ver |-> v]
 
 \* what honest keys ever signed bounds what the adversary can attach
@@ -46,7 +46,9 @@ CertSigs(v, d) == {JunkSig} \cup {Sig("LTKx", CtxDele(v2), d) : v2 \in Versions}
                   \cup (IF d.pubk = "OLK" THEN {Sig("LTK", CtxDele(v2), d) : v2 \in Versions} ELSE {})
 \* the honest online key signed: this response, old responses, the other protocol's responses - all with midp "now"
 SrepSigs(sr) == {JunkSig} \cup {Sig("OLKx", CtxSrep, sr)}
-                \cup (IF sr.midp = "now" /\ sr.root \in {"this", "old", "otherproto"} THEN {Sig("OLK", CtxSrep, sr)} ELSE {})
+                \* ("short": a ROOT shorter than a tree node - empty or a prefix of the real root - signed by the genuine online key:
+                \*  no inclusion proof recomputes it, whatever a comparison that stops at the shorter operand says)
+                \cup (IF sr.midp = "now" /\ sr.root \in {"this", "old", "otherproto", "short"} THEN {Sig("OLK", CtxSrep, sr)} ELSE {})
 
 \* inclusion proofs the adversary can present: which leaf the (index, path) pair binds, and to which root.
 \* Hashing is collision free, so a proof exists only for leaves that really were in a signed batch:
